@@ -202,7 +202,7 @@ def iter_idiom_rules(label, elem_spec, pair_spec, adj_spec=None):
                     "{", f"let {x} = & {a} [ {i} ] ; if (", *body, f") {{ {r} = true ; }} else {{ {i} += 1 ; }}", "}", r, "}"]
         return repl
 
-    def pairs(step):
+    def pairs(step, kind="all"):
         def repl(b):
             a, x, body = text(b["a"]), text(b["x"]), b["body"]
             k = fresh(); i, r = f"verif_i_{k}", f"verif_r_{k}"
@@ -210,20 +210,31 @@ def iter_idiom_rules(label, elem_spec, pair_spec, adj_spec=None):
             if x in body2:
                 return None                       # the closure uses the window other than as x[0] / x[1]: decline
             dom = f"0 <= j < {i}" + (" && j % 2 == 0" if step == 2 else "")
-            inv = (f"invariant {i} <= {a}.len(), " + (f"{i} % 2 == 0, " if step == 2 else "") + f"forall|j: int| {dom} ==> {adj_spec(a, 'j')}, "
-                   f"!{r} ==> ({i} + 1 < {a}.len() && !({adj_spec(a, i + ' as int')})) "
-                   f"decreases {a}.len() - {i} + (if {r} {{ 1int }} else {{ 0int }})")
-            return ["{", f"let mut {i} : usize = 0 ; let mut {r} = true ; while {r} && {a} . len ( ) - {i} > 1", G(inv),
-                    "{", "if ! (", *body2, f") {{ {r} = false ; }} else {{ {i} += {step} ; }}", "}", r, "}"]
+            par = f"{i} % 2 == 0, " if step == 2 else ""
+            if kind == "all":
+                inv = (f"invariant {i} <= {a}.len(), {par}forall|j: int| {dom} ==> {adj_spec(a, 'j')}, "
+                       f"!{r} ==> ({i} + 1 < {a}.len() && !({adj_spec(a, i + ' as int')})) "
+                       f"decreases {a}.len() - {i} + (if {r} {{ 1int }} else {{ 0int }})")
+                return ["{", f"let mut {i} : usize = 0 ; let mut {r} = true ; while {r} && {a} . len ( ) - {i} > 1", G(inv),
+                        "{", "if ! (", *body2, f") {{ {r} = false ; }} else {{ {i} += {step} ; }}", "}", r, "}"]
+            inv = (f"invariant {i} <= {a}.len(), {par}forall|j: int| {dom} ==> !({adj_spec(a, 'j')}), "
+                   f"{r} ==> ({i} + 1 < {a}.len() && {adj_spec(a, i + ' as int')}) "
+                   f"decreases {a}.len() - {i} + (if {r} {{ 0int }} else {{ 1int }})")
+            return ["{", f"let mut {i} : usize = 0 ; let mut {r} = false ; while ! {r} && {a} . len ( ) - {i} > 1", G(inv),
+                    "{", "if (", *body2, f") {{ {r} = true ; }} else {{ {i} += {step} ; }}", "}", r, "}"]
         return repl
 
     why = "iterator adapter with a boolean closure -> indexed loop with the adapter's own meaning"
     return [
         Rule("R2", "$a . iter ( ) . zip ( $b . iter ( ) ) . all ( | ( $x , $y ) | $$body )", zip_all, why=why + " (zip + all: common prefix, every pair)"),
-        Rule("R2", "$a . iter ( ) . as_ref ( ) . windows ( 2 ) . all ( | $x | $$body )", pairs(1), why=why + " (windows(2) + all: every adjacent pair)"),
-        Rule("R2", "$a . windows ( 2 ) . all ( | $x | $$body )", pairs(1), why=why + " (windows(2) + all: every adjacent pair)"),
-        Rule("R2", "$a . iter ( ) . as_ref ( ) . chunks_exact ( 2 ) . all ( | $x | $$body )", pairs(2), why=why + " (chunks_exact(2) + all: disjoint pairs, trailing element ignored)"),
-        Rule("R2", "$a . chunks_exact ( 2 ) . all ( | $x | $$body )", pairs(2), why=why + " (chunks_exact(2) + all: disjoint pairs)"),
+        Rule("R2", "$a . iter ( ) . as_ref ( ) . windows ( 2 ) . all ( | $x | $$body )", pairs(1, "all"), why=why + " (windows(2) + all: every adjacent pair)"),
+        Rule("R2", "$a . iter ( ) . as_ref ( ) . windows ( 2 ) . any ( | $x | $$body )", pairs(1, "any"), why=why + " (windows(2) + any: some adjacent pair)"),
+        Rule("R2", "$a . iter ( ) . as_ref ( ) . chunks_exact ( 2 ) . all ( | $x | $$body )", pairs(2, "all"), why=why + " (chunks_exact(2) + all: disjoint pairs, trailing element ignored)"),
+        Rule("R2", "$a . iter ( ) . as_ref ( ) . chunks_exact ( 2 ) . any ( | $x | $$body )", pairs(2, "any"), why=why + " (chunks_exact(2) + any: disjoint pairs, trailing element ignored)"),
+        Rule("R2", "$a . windows ( 2 ) . all ( | $x | $$body )", pairs(1, "all"), why=why + " (windows(2) + all: every adjacent pair)"),
+        Rule("R2", "$a . windows ( 2 ) . any ( | $x | $$body )", pairs(1, "any"), why=why + " (windows(2) + any: some adjacent pair)"),
+        Rule("R2", "$a . chunks_exact ( 2 ) . all ( | $x | $$body )", pairs(2, "all"), why=why + " (chunks_exact(2) + all: disjoint pairs, trailing element ignored)"),
+        Rule("R2", "$a . chunks_exact ( 2 ) . any ( | $x | $$body )", pairs(2, "any"), why=why + " (chunks_exact(2) + any: disjoint pairs, trailing element ignored)"),
         Rule("R2", "$a . iter ( ) . all ( | $x | $$body )", one("all"), why=why + " (all)"),
         Rule("R2", "$a . iter ( ) . any ( | $x | $$body )", one("any"), why=why + " (any)"),
     ]
